@@ -46,6 +46,8 @@ type GrammarError struct {
 	Off  int
 	Type byte
 	Why  string
+	// Trunc: the stream ends inside this message (everything before it parsed)
+	Trunc bool
 }
 
 func (e *GrammarError) Error() string {
@@ -110,19 +112,19 @@ func ParseStream(b []byte) ([]Msg, error) {
 	for p < len(b) {
 		t := b[p]
 		if len(b)-p < 5 {
-			return out, &GrammarError{p, t, fmt.Sprintf("truncated header: %d byte(s) left", len(b)-p)}
+			return out, &GrammarError{p, t, fmt.Sprintf("truncated header: %d byte(s) left", len(b)-p), true}
 		}
 		l := int64(binary.BigEndian.Uint32(b[p+1:]))
 		if l < 4 {
-			return out, &GrammarError{p, t, fmt.Sprintf("declared length %d < 4", l)}
+			return out, &GrammarError{Off: p, Type: t, Why: fmt.Sprintf("declared length %d < 4", l)}
 		}
 		if int64(len(b)-p-1) < l {
-			return out, &GrammarError{p, t, fmt.Sprintf("declared length %d but only %d byte(s) follow", l, len(b)-p-1)}
+			return out, &GrammarError{p, t, fmt.Sprintf("declared length %d but only %d byte(s) follow", l, len(b)-p-1), true}
 		}
 		body := b[p+5 : p+1+int(l)]
 		m := Msg{Type: t, Off: p, Body: body}
 		if why := parseBody(&m); why != "" {
-			return out, &GrammarError{p, t, why}
+			return out, &GrammarError{Off: p, Type: t, Why: why}
 		}
 		out = append(out, m)
 		p += 1 + int(l)
